@@ -105,20 +105,27 @@ Qed.
 (* what a statement of the program becomes in the placed list *)
 Definition is_repeat (s : stmt) : bool := match s with Repeat _ _ | Include _ _ => true | _ => false end.
 
-(* [cnt ce k]: the count expression ce of a .repeat stands for k copies *)
-Inductive flat (cnt : expr -> nat -> Prop) : list stmt -> list stmt -> Prop :=
-| flat_nil : flat cnt [] []
-| flat_leaf s r r' : is_repeat s = false -> flat cnt r r' -> flat cnt (s :: r) (s :: r')
-| flat_base e r r' : flat cnt r r' -> flat cnt (Skip e :: r) (Link e :: r')
-| flat_rep ce body copies r r' :
-    cnt ce (length copies) ->
-    Forall (flat cnt body) copies -> flat cnt r r' -> flat cnt (Repeat ce body :: r) (concat copies ++ r')
-| flat_inc fid body d r r' :
-    flat cnt (cut_end body) d -> flat cnt r r' -> flat cnt (Include fid body :: r) (d ++ r').
+(* [cnt ce k]: the count expression ce of a .repeat stands for k copies.
+   The two booleans: the link base has been fixed before / after the statements.  Only the `. = e` met while the
+   base is not fixed becomes a silent Link (flat_base); a .link is only met then (flat_link; a second one is an
+   error); later `. = e` stay skips (flat_skip).  Repeat bodies and included files never fix the base. *)
+Definition is_base (s : stmt) : bool := match s with Link _ | Skip _ => true | _ => false end.
 
-Lemma flat_app cnt a a' : flat cnt a a' -> forall b b', flat cnt b b' -> flat cnt (a ++ b) (a' ++ b').
+Inductive flat (cnt : expr -> nat -> Prop) : bool -> list stmt -> list stmt -> bool -> Prop :=
+| flat_nil b : flat cnt b [] [] b
+| flat_leaf b b' s r r' : is_repeat s = false -> is_base s = false -> flat cnt b r r' b' -> flat cnt b (s :: r) (s :: r') b'
+| flat_link b' e r r' : flat cnt true r r' b' -> flat cnt false (Link e :: r) (Link e :: r') b'
+| flat_skip b' e r r' : flat cnt true r r' b' -> flat cnt true (Skip e :: r) (Skip e :: r') b'
+| flat_base b' e r r' : flat cnt true r r' b' -> flat cnt false (Skip e :: r) (Link e :: r') b'
+| flat_rep b b' ce body copies r r' :
+    cnt ce (length copies) ->
+    Forall (fun c => flat cnt b body c b) copies -> flat cnt b r r' b' -> flat cnt b (Repeat ce body :: r) (concat copies ++ r') b'
+| flat_inc b b' fid body d r r' :
+    flat cnt b (cut_end body) d b -> flat cnt b r r' b' -> flat cnt b (Include fid body :: r) (d ++ r') b'.
+
+Lemma flat_app cnt b a a' b1 : flat cnt b a a' b1 -> forall c c' b2, flat cnt b1 c c' b2 -> flat cnt b (a ++ c) (a' ++ c') b2.
 Proof.
-  induction 1; intros b b' Hb; simpl; try assumption; try (constructor; auto; fail).
+  induction 1; intros c c' b2 Hc; simpl; try assumption; try (constructor; auto; fail).
   - rewrite <- app_assoc. constructor; auto.
   - rewrite <- app_assoc. constructor; auto.
 Qed.
@@ -289,29 +296,63 @@ Proof. cbn [Asm.lay_stmt]. rewrite lay_file_eq. reflexivity. Qed.
 Lemma lay_stmt_leaf inrep s st : is_repeat s = false -> lay_stmt inrep s st = lay_leaf inrep s st.
 Proof. destruct s; simpl; intros H; try reflexivity; discriminate. Qed.
 
+(* how a leaf statement moves the "base is fixed" flag *)
+Lemma lay_leaf_based inrep s st st' d : lay_leaf inrep s st = XOk (st', d) ->
+  l_inc st' = l_inc st /\ ((inrep = true \/ l_inc st = true) -> l_based st' = l_based st) /\
+  flat (l_based st) [s] (map i_stmt d) (l_based st').
+Proof.
+  unfold Asm.lay_leaf. intros H.
+  assert (LF : forall b s0, is_repeat s0 = false -> is_base s0 = false -> flat b [s0] [s0] b)
+    by (intros; constructor; auto; constructor).
+  destruct s; try discriminate;
+    try (cbn [sized_size] in H; xinv H; inversion H; subst; simpl; split; [reflexivity|]; split; [reflexivity|]; apply LF; reflexivity).
+  - destruct inrep; [discriminate|]. destruct (_ || _); [discriminate|]. inversion H; subst. simpl. auto.
+  - destruct inrep; [discriminate|]. destruct (kmem _ _); [discriminate|]. inversion H; subst. simpl. auto.
+  - destruct inrep; [discriminate|]. destruct (_ || _); [discriminate|]. inversion H; subst. simpl. auto.
+  - destruct inrep; [discriminate|]. destruct (l_inc st) eqn:Ei; [discriminate|]. destruct (l_based st) eqn:Eb; [discriminate|].
+    inversion H; subst. simpl. split; [congruence|]. split; [intros [?|?]; congruence|]. apply flat_link. apply flat_nil.
+  - destruct (l_inc st) eqn:Ei; [discriminate|]. destruct (l_based st) eqn:Eb.
+    + xinv H. inversion H; subst. simpl. split; [congruence|]. split; [auto|]. rewrite Eb. apply flat_skip. apply flat_nil.
+    + destruct inrep; [discriminate|]. inversion H; subst. simpl. split; [congruence|]. split; [intros [?|?]; congruence|].
+      apply flat_base. apply flat_nil.
+  - destruct inrep; [discriminate|]. inversion H; subst. simpl. auto.
+  - destruct inrep; [discriminate|]. inversion H; subst. simpl. auto.
+Qed.
+
 Definition stmt_ext (s : stmt) : Prop :=
-  forall inrep st st' d, lay_stmt inrep s st = XOk (st', d) -> Ext st st' d /\ flat [s] (map i_stmt d).
+  forall inrep st st' d, lay_stmt inrep s st = XOk (st', d) ->
+  Ext st st' d /\ flat (l_based st) [s] (map i_stmt d) (l_based st') /\
+  l_inc st' = l_inc st /\ ((inrep = true \/ l_inc st = true) -> l_based st' = l_based st).
 
 Lemma lay_list_ext l : Forall stmt_ext l ->
-  forall inrep st st' d, lay_list inrep l st = XOk (st', d) -> Ext st st' d /\ flat l (map i_stmt d).
+  forall inrep st st' d, lay_list inrep l st = XOk (st', d) ->
+  Ext st st' d /\ flat (l_based st) l (map i_stmt d) (l_based st') /\
+  l_inc st' = l_inc st /\ ((inrep = true \/ l_inc st = true) -> l_based st' = l_based st).
 Proof.
   induction 1 as [|x r Hx _ IH]; intros inrep st st' d H; simpl in H.
-  - inversion H; subst. split; [apply Ext_refl|constructor].
+  - inversion H; subst. split; [apply Ext_refl|]. split; [constructor|]. auto.
   - xinv H. destruct a as [s1 d1]. destruct a0 as [s2 d2]. simpl in *. inversion H; subst.
-    destruct (Hx _ _ _ _ Ha) as [E1 F1]. destruct (IH _ _ _ _ Ha0) as [E2 F2].
-    split; [eapply Ext_trans; eauto|].
-    rewrite map_app. change (x :: r) with ([x] ++ r). apply flat_app; auto.
+    destruct (Hx _ _ _ _ Ha) as [E1 [F1 [I1 B1]]]. destruct (IH _ _ _ _ Ha0) as [E2 [F2 [I2 B2]]].
+    split; [eapply Ext_trans; eauto|]. split.
+    + rewrite map_app. change (x :: r) with ([x] ++ r). eapply flat_app; eauto.
+    + split; [congruence|]. intros C. rewrite B2, B1; auto. destruct C; [left; assumption|right; congruence].
 Qed.
 
 Lemma iter_ext body : Forall stmt_ext body -> forall n st st' d,
   iter_x n (lay_list true body) st = XOk (st', d) ->
-  exists copies, length copies = n /\ d = concat copies /\ Ext st st' d /\ Forall (fun c => flat body (map i_stmt c)) copies.
+  l_inc st' = l_inc st /\ l_based st' = l_based st /\
+  exists copies, length copies = n /\ d = concat copies /\ Ext st st' d /\
+                 Forall (fun c => flat (l_based st) body (map i_stmt c) (l_based st)) copies.
 Proof.
   intros Hb. induction n as [|n IH]; intros st st' d H; simpl in H.
-  - inversion H; subst. exists []. split; [reflexivity|]. split; [reflexivity|]. split; [apply Ext_refl|constructor].
+  - inversion H; subst. split; [reflexivity|]. split; [reflexivity|]. exists []. split; [reflexivity|]. split; [reflexivity|].
+    split; [apply Ext_refl|constructor].
   - xinv H. destruct a as [s1 d1]. destruct a0 as [s2 d2]. simpl in *. inversion H; subst.
-    destruct (lay_list_ext _ Hb _ _ _ _ Ha) as [E1 F1]. destruct (IH _ _ _ Ha0) as [cs [L [-> [E2 F2]]]].
-    exists (d1 :: cs). split; [simpl; congruence|]. split; [reflexivity|]. split; [simpl; eapply Ext_trans; eauto|constructor; auto].
+    destruct (lay_list_ext _ Hb _ _ _ _ Ha) as [E1 [F1 [I1 B1]]]. specialize (B1 (or_introl eq_refl)).
+    destruct (IH _ _ _ Ha0) as [I2 [B2 [cs [L [-> [E2 F2]]]]]].
+    split; [congruence|]. split; [congruence|].
+    exists (d1 :: cs). split; [simpl; congruence|]. split; [reflexivity|]. split; [simpl; eapply Ext_trans; eauto|].
+    constructor; [rewrite B1 in F1; exact F1|]. rewrite B1 in F2. exact F2.
 Qed.
 
 Lemma map_concat {A B} (f : A -> B) (ls : list (list A)) : map f (concat ls) = concat (map (map f) ls).
@@ -324,23 +365,26 @@ Lemma lay_stmt_ext s : stmt_ext s.
 Proof.
   induction s as [ce body IH | fid body IH | s Hs] using stmt_ind2; intros inrep st st' d H.
   - rewrite lay_stmt_repeat in H. xinv H.
-    destruct (iter_ext _ IH _ _ _ _ H) as [cs [L [-> [E F]]]]. split; [exact E|].
-    rewrite map_concat. rewrite <- (app_nil_r (concat _)). constructor; [| |constructor].
+    destruct (iter_ext _ IH _ _ _ _ H) as [I2 [B2 [cs [L [-> [E F]]]]]]. split; [exact E|]. split; [|auto].
+    rewrite map_concat, B2. rewrite <- (app_nil_r (concat _)). constructor; [| |constructor].
     + rewrite map_length, L. apply lift_ok' in Ha0. eexists _, _, _, _. split; [exact Ha|]. split; [exact Ha0|reflexivity].
     + rewrite Forall_map. exact F.
   - destruct inrep; [discriminate|]. rewrite lay_stmt_include in H. xinv H. destruct a as [s1 d1]. simpl in H. inversion H; subst.
-    destruct (lay_list_ext _ (Forall_cut_end _ _ IH) _ _ _ _ Ha) as [E F]. split.
-    + eapply Ext_same; [| | | |exact E]; reflexivity.
-    + rewrite <- (app_nil_r (map i_stmt d)). constructor; [exact F|constructor].
+    destruct (lay_list_ext _ (Forall_cut_end _ _ IH) _ _ _ _ Ha) as [E [F [I1 B1]]]. simpl in *.
+    specialize (B1 (or_intror eq_refl)). split; [eapply Ext_same; [| | | |exact E]; reflexivity|]. split.
+    + rewrite B1. rewrite <- (app_nil_r (map i_stmt d)). constructor; [rewrite B1 in F; exact F|constructor].
+    + split; [reflexivity|]. intros _. exact B1.
   - rewrite lay_stmt_leaf in H by exact Hs.
-    destruct (lay_leaf_ext _ _ _ _ _ H) as [it [-> [E [[Es|[e [Es1 Es2]]] _]]]]; split; auto; simpl.
-    + rewrite Es. constructor; [exact Hs|constructor].
-    + rewrite Es1, Es2. constructor. constructor.
+    destruct (lay_leaf_ext _ _ _ _ _ H) as [it [-> [E _]]]. destruct (lay_leaf_based _ _ _ _ _ H) as [I1 [B1 F1]].
+    split; [exact E|]. split; [exact F1|]. split; [exact I1|exact B1].
 Qed.
 
 Lemma lay_program_ext l inrep st st' d : lay_list inrep l st = XOk (st', d) ->
-  Ext st st' d /\ flat l (map i_stmt d).
-Proof. apply lay_list_ext. apply Forall_forall. intros x _. apply lay_stmt_ext. Qed.
+  Ext st st' d /\ flat (l_based st) l (map i_stmt d) (l_based st').
+Proof.
+  intros H. assert (F : Forall stmt_ext l) by (apply Forall_forall; intros x _; apply lay_stmt_ext).
+  destruct (lay_list_ext l F _ _ _ _ H) as [E [Fl _]]. auto.
+Qed.
 
 End Layout.
 
@@ -436,8 +480,8 @@ Qed.
 
 Theorem layout_thm enc p f : assemble_full enc p = XOk f ->
   length (f_chunks f) = length (f_items f) /\
-  flat (layout_count enc (collect_defs 0 0 (cut_end p)) (collect_keys 0 0 (cut_end p)) (f_exports f)
-          (S (length (collect_defs 0 0 (cut_end p))))) (cut_end p) (map i_stmt (f_items f)) /\
+  (exists b', flat (layout_count enc (collect_defs 0 0 (cut_end p)) (collect_keys 0 0 (cut_end p)) (f_exports f)
+                      (S (length (collect_defs 0 0 (cut_end p))))) false (cut_end p) (map i_stmt (f_items f)) b') /\
   (forall k it bs, nth_error (f_items f) k = Some it -> nth_error (f_chunks f) k = Some bs ->
       i_size it = zlen bs /\
       i_addr it = f_base f + zlen (concat (firstn k (f_chunks f))) /\
@@ -453,7 +497,7 @@ Proof.
   pose proof (consistent_blocks (f_items f) (f_chunks f)) as Hc. rewrite Hg in Hc.
   destruct (address_invariant_block _ (f_base f) Hc) as [Inv Tot].
   rewrite out_blocks in * by exact Hlen. rewrite adv_blocks in Tot by exact Hlen.
-  split; [exact Hlen|]. split; [rewrite Hx; exact F|]. split; [|symmetry; exact Tot].
+  split; [exact Hlen|]. split; [rewrite Hx; eexists; exact F|]. split; [|symmetry; exact Tot].
   intros k it bs Hk1 Hk2.
   assert (Hk3 : nth_error (map i_addr (f_items f)) k = Some (i_addr it)) by (rewrite nth_error_map, Hk1; reflexivity).
   pose proof (nth_error_combine _ _ _ _ _ Hk3 Hk2) as Hk.
